@@ -39,6 +39,7 @@ ASSUMPTIONS = [
 ]
 TRUSTED = ["Python's json module (strict mode) as the independent parser of the direct round-trip oracle",
            "serde_json 1.0.151's escaping table and compact formatter, read from its source and modelled in Model/Json.v"]
+RELEASE_TOO = True          # the cases also run through the release-profile harness (see ./check)
 EXHAUSTIVE = {"quick": False, "thorough": False}
 
 SPECIAL = [0x80, 0x85, 0x9F, 0xA0, 0xE9, 0x7FF, 0x800, 0x2028, 0x2029, 0xD7FF, 0xE000, 0xFEFF, 0xFFFD,
